@@ -163,6 +163,30 @@ def drift_param(ctx, cname, p, strict, cell):
                 return False
         return True
 
+    def with_alarm(e):
+        """Is e on a path on which the drift is stored as well (its guards contain every guard of some drift store)?  Only then
+        may a statistic differ between a stricter and a looser run: the looser one alarms at that very update."""
+        mine = [pc.cond for pc in e.pc]
+        for dp in dpcs:
+            if all(any(x.cond == m for m in mine) for x in dp):
+                return True
+        return False
+
+    def no_alarm_as_a_whole(e):
+        """Every parameter-dependent guard of e is the negation of the *whole* decision (`not (test and warm-up ...)`, or a test of
+        the resulting state `!= 'drift'`): a path both a stricter and a looser run take whenever the looser one does not alarm."""
+        for pc in e.pc:
+            if not T.mentions(pc.cond, lambda a: a in taint):
+                continue
+            parts = q.conjuncts(T.mk_not(pc.cond))
+            whole = any(_neg_of_conj(pc.cond, dp) and len(parts) >= 2 and
+                        all(any(x.cond == pt or pt in q.conjuncts(x.cond) for pt in parts) for x in dp if T.mentions(x.cond, lambda a: a in taint)) and
+                        any(not T.mentions(pt, lambda a: a in taint) for pt in parts) for dp in dpcs)
+            state_test = T.mentions(pc.cond, lambda a: a == ("const", "drift")) and (q.is_cmp(pc.cond) or ("", ""))[1] == "!="
+            if not (whole or state_test):
+                return False
+        return True
+
     def decision_cond(c):
         for dp in dpcs:
             for x in dp:
@@ -210,7 +234,7 @@ def drift_param(ctx, cname, p, strict, cell):
                 continue
             if e.attr in LOGS or e.attr in carriers or e.attr == "_drift_state":
                 continue
-            if not dep_v and under_decision(e):
+            if not dep_v and under_decision(e) and (with_alarm(e) or no_alarm_as_a_whole(e)):
                 continue
             if e.attr in MONOTONE_STATE.get(cname, ()):
                 continue
